@@ -846,8 +846,7 @@ fn seg_plan(run: &mut Runner, r: &mut R, stats: &mut serde_json::Value) {
         } else if c < 56 && !indexed && step > 5 {
             if run.auto(&idx_stmt).is_ok() { indexed = true; tabs[0].def.uniq = vec![vec![1]]; }
         } else if c < 60 { run.vacuum(); }
-        // no ANALYZE here: the statistics blob makes the catalog row a large cell and later inserts corrupt the catalog
-        // (finding AnalyzeThenInsertCorruptsCatalog); covered by its witness only
+        else if c < 64 { run.analyze(); }   // statistics change the cost model and with it the chosen plans
         else {
             // the query and its plan variants
             let mut q = if r.random_bool(0.5) {
@@ -1031,9 +1030,8 @@ fn seg_cfg(run: &mut Runner, wseed: u64, cfg: axmosdb::DBConfig, checkpoints: bo
     let mut r = util::rng(wseed, 7);
     let r = &mut r;
     run.reset(cfg);
-    let small_page = cfg.page_size <= 8192;
-    // with 4/8 KiB pages the catalog must stay tiny (finding MetaTableSplitCorruptsCatalog): one table, no index
-    let mut tabs: Vec<Tab> = if small_page { vec![rand_table(r, "t1", false)] } else { let u = r.random_bool(0.5); vec![rand_table(r, "t1", u), rand_table(r, "t2", false)] };
+    let small_page = false;
+    let mut tabs: Vec<Tab> = { let u = r.random_bool(0.5); vec![rand_table(r, "t1", u), rand_table(r, "t2", false)] };
     for t in tabs.iter_mut() { run.auto(&Stmt::Create(t.def.clone())); }
     // enough rows to need several pages, so that small caches evict
     let rows = if small_page { 40 } else { 150 };
